@@ -6,6 +6,8 @@
 #                     or the index against the LENGTH OF THE INDEXED CONTAINER, "sub" = the two operands of the
 #                     subtraction against each other (arithmetic, casts and min/max are looked through).
 #   ("invariant", I)  safe under invariant I of a private-field type; who-may-construct is machine-checked.
+#   ("precondition", P, why) like reviewed, but the reason rests on precondition P (PRECONDITIONS), which is a guard
+#                     in every caller and is machine-checked there (variant + relation).
 #   ("reviewed", why) frozen reason.  Editing the expression changes the key and forces re-triage.
 # A reachable site that is not listed is a VIOLATION.
 
@@ -39,6 +41,16 @@ INVARIANTS = {
         # functions allowed to store into the field (each asserts or only decreases)
         "field": "depth",
         "mutators": ["nomt_core::trie_pos::TriePosition::down", "nomt_core::trie_pos::TriePosition::up"],  # down asserts depth != 256 before incrementing; up only decreases
+    },
+}
+
+# preconditions that reviewed sites of a callee rest on and that ARE a guard in every caller: machine-checked
+PRECONDITIONS = {
+    "ops_strictly_ascending": {
+        "text": "the operation list handed to leaf_ops_spliced / build_trie is strictly ascending by key (no duplicates)",
+        "variant": "OpsOutOfOrder",
+        "functions": ["nomt_core::proof::path_proof::verify_update", "nomt_core::proof::multi_proof::verify_update"],
+        "relation": "strict-order",
     },
 }
 
@@ -152,8 +164,8 @@ SITES = {
     "update::build_trie|assert:Overflow:Add|core::cmp::max(n1, n2) + 1|#1": ("reviewed", "n <= 256"),
     "update::build_trie|assert:Overflow:Add|skip + n1.unwrap_or(0)|#1": ("reviewed", "skip, n <= 256"),
     "update::build_trie|assert:Overflow:Add|skip + leaf_depth|#1": ("reviewed", "skip, leaf_depth <= 257"),
-    "update::build_trie|call:index|[down_start..leaf_end_bit]|#1": ("reviewed", "keys are strictly ascending (OpsOutOfOrder guards in both update verifiers) hence distinct, so two neighbours share at most 255 - skip bits after the prefix: leaf_end_bit = skip + max(n) + 1 <= 256; down_start = skip + n1 <= leaf_end_bit"),
-    "update::build_trie|call:index|[skip..leaf_end_bit]|#1": ("reviewed", "leaf_end_bit <= 256 as above, skip <= leaf_end_bit"),
+    "update::build_trie|call:index|[down_start..leaf_end_bit]|#1": ("precondition", "ops_strictly_ascending", "keys are strictly ascending (OpsOutOfOrder guards in both update verifiers) hence distinct, so two neighbours share at most 255 - skip bits after the prefix: leaf_end_bit = skip + max(n) + 1 <= 256; down_start = skip + n1 <= leaf_end_bit"),
+    "update::build_trie|call:index|[skip..leaf_end_bit]|#1": ("precondition", "ops_strictly_ascending", "leaf_end_bit <= 256 as above, skip <= leaf_end_bit"),
     "update::build_trie|assert:Overflow:Sub|layer -= 1|#1": ("reviewed", "hash_up_layers <= leaf_depth = initial layer"),
     "update::build_trie|call:unwrap|pending_siblings.pop().unwrap()|#1": ("reviewed", "`last()` was just observed to be Some"),
     "update::build_trie::{closure}|assert:Overflow:Add|layer + 1|#1": ("reviewed", "layer <= 256"),
